@@ -15,7 +15,7 @@ def sig_of(module):
         for e in evs:
             if e['e'] in ('Stuck', 'Crash', 'Terminate'):
                 return e['e'].lower()
-        i = vlib.first_unexplained(SD, module, module + '.cfg', evs, 'c19')
+        i = vlib.first_unexplained(SD, module, module + '.cfg', evs, 'c19', linear=True)
         return 'first-unexplained=%s' % (evs[i]['e'] if i is not None else '?')
     return signature
 
